@@ -39,6 +39,7 @@ type Frame struct {
 	isInit   bool
 	anchorOrd   map[string]int
 	afterOrd    map[string]int
+	lastCallRes *V
 	curCallArgs []*V
 	usedAnchors map[string]bool
 }
@@ -702,7 +703,7 @@ func (f *Frame) findLoops() {
 			case *ast.RangeStmt:
 				key = "range " + f.u.eng.exprText(s.X)
 			case *ast.ForStmt:
-				key = "for " + f.u.eng.exprText(s.Cond)
+				key = strings.TrimSpace("for " + f.u.eng.exprText(s.Cond))
 			}
 		}
 		n := counts[key]
